@@ -208,6 +208,9 @@ pub fn generate(rng: &mut Rng, opts: &GenOpts, tag: &str) -> Value {
             durations[i][k] = d;
             distances[i][k] = if (p == Profile::NonMetric || p == Profile::Degenerate) && rng.chance(1, 5) {
                 0
+            } else if ties || (p == Profile::Depots && rng.chance(1, 2)) {
+                // equal distances between different pairs of locations (equidistant depots)
+                *rng.pick(&[5000i64, 10000, 10000, 20000])
             } else {
                 rng.range(1, 80) * 1000
             };
@@ -477,6 +480,20 @@ pub fn generate(rng: &mut Rng, opts: &GenOpts, tag: &str) -> Value {
             placed.push((t, t + rs.dur, rs.origin, rs.dest));
             t += rs.dur;
             n_segments += 1;
+        }
+        // a departure need not run the whole route (short turns) and the order in which it
+        // lists its segments carries no meaning
+        if segs.len() >= 2 && rng.chance(1, 6) {
+            let a = rng.usize(0, segs.len() - 1);
+            let b = rng.usize(a, segs.len() - 1);
+            segs = segs[a..=b].to_vec();
+        }
+        if segs.len() >= 2 && rng.chance(1, 5) {
+            if rng.chance(1, 2) {
+                segs.reverse();
+            } else {
+                rng.shuffle(&mut segs);
+            }
         }
         departures.push(json!({
             "id": format!("{}.D{}", tag, d),
